@@ -23,11 +23,22 @@ func hKeyOf(i hIns) base.InternalKey {
 // insert either succeeds or, for an internal key that is already present or
 // won by the other inserter, reports ErrRecordExists; afterwards forward and
 // backward traversals return exactly the inserted keys, once each, in order.
-func hSkiplistInserts(nThreads int, prePopulate bool) {
+func hSkiplistInserts(nThreads int, prePopulate bool) { hSkiplistInsertsK(nThreads, prePopulate, nil) }
+
+// With fixed keys the inserters' keys are concrete (the solver then decides schedules and
+// tower heights only): used for the three-inserter instances.
+func hSkiplistInsertsK(nThreads int, prePopulate bool, fixed []byte) {
 	arena := NewArena(make([]byte, 2048))
 	l := NewSkiplist(arena, base.DefaultComparer.Compare)
 	var all []hIns
-	if prePopulate {
+	if prePopulate && fixed != nil {
+		// two existing keys bracketing the inserted ones
+		for _, k := range []byte{'a', 'z'} {
+			p := hIns{key: k, seq: 5}
+			sym.Assert(l.Add(hKeyOf(p), []byte{1}) == nil, "sequential-insert")
+			all = append(all, p)
+		}
+	} else if prePopulate {
 		p := hIns{key: sym.U8("existing-key"), seq: 5}
 		sym.Assume(sym.And(p.key >= 'a', p.key <= 'c'))
 		sym.Assert(l.Add(hKeyOf(p), []byte{1}) == nil, "sequential-insert")
@@ -35,6 +46,10 @@ func hSkiplistInserts(nThreads int, prePopulate bool) {
 	}
 	ins := make([]hIns, nThreads)
 	for i := range ins {
+		if fixed != nil {
+			ins[i].key, ins[i].seq = fixed[i], 5
+			continue
+		}
 		ins[i].key = sym.U8("key")
 		sym.Assume(sym.And(ins[i].key >= 'a', ins[i].key <= 'c'))
 		ins[i].seq = base.SeqNum(4 + sym.Choose("seq", 2)) // may collide with each other and with the existing key
@@ -112,6 +127,17 @@ func hSkiplistInserts(nThreads int, prePopulate bool) {
 	sym.Reach("inserted")
 }
 
-func VerifHarness_C30_Conc_TwoInserters() { hSkiplistInserts(2, true) }
+func VerifHarness_C30_Conc_TwoInserters() {
+	if !sym.Thorough() {
+		sym.MaxPreempt(1)
+	}
+	hSkiplistInserts(2, true)
+}
 
-func VerifHarness_C30_Conc_TwoInserters2_Thorough() { hSkiplistInserts(2, true) }
+
+// three inserters between two existing keys (one can be on its retry path while the two others complete)
+func VerifHarness_C30_Conc_ThreeInserters() {
+	sym.MaxPreempt(2)
+	sym.FixRandom() // towers of height 1
+	hSkiplistInsertsK(3, true, []byte{'c', 'k', 'g'})
+}
